@@ -170,9 +170,12 @@ class Run:
         # second pass: what was left open (solver budget hit, e.g. on a loaded machine) is retried alone, with four times
         # the budget and little parallelism, before it counts as undischarged
         open_obs = [o for o in self.obligations if o.result == "unknown"]
-        if open_obs:
+        if open_obs and len(open_obs) <= 24:
+            # (a handful of open VCs is what a loaded machine produces; dozens mean the proof is gone - no point in waiting)
             self.notes.append(f"{len(open_obs)} path VCs left open by the first pass were retried with a {4 * timeout} s budget")
-            solve.solve_all(open_obs, timeout_s=4 * timeout, jobs=4)
+            solve.solve_all(open_obs, timeout_s=4 * timeout, jobs=8)
+        elif open_obs:
+            self.notes.append(f"{len(open_obs)} path VCs left open by the first pass; too many for a retry to be the answer")
         self.solver_time = time.time() - t
         self.groups = solve.group(self.obligations)
         if "F3" in self.lemmas:
